@@ -15,6 +15,7 @@ func init() { register("C11", checkC11) }
 func checkC11(c *Ctx, r *Report) {
 	r.Explanation = "R2 ORDER: in the declaration visitor the scan for the maximum explicit/literal code covers every identifier of every declaration list and precedes the automatic numbering; literals first seen in precedence lines or rules are flushed into the declaration list on every non-error exit of their sub-parser. R3: automatic codes are the pre-incremented maximum (initial value 2, above −1 and 0), nonterminals continue the same counter — so automatic codes are above every explicit and literal code. R1: the const block pairs (Name, Value) of one identifier, the translate switch pairs (Value, ID) of one symbol over all terminals including the end marker, Symbol.Value is copied from the identifier's Value, the default of translate is the error column. Sibling rule: the three places that create a character-literal identity compute its code with the same expression, and that expression decodes a character (rune), not a byte. Not decided: uniqueness when the user's explicit numbers collide (excluded by the property), duplicate case labels that result from that."
 	st := c.GetStaged()
+	stagedErrors(r, "C11", st)
 	c11a(c, r)
 	c11b(c, r)
 	c11c(c, r, st)
